@@ -1176,6 +1176,9 @@ def m_take(I, c, a):
         a.set(StringBuf())
     elif isinstance(x, VecVal):
         a.set(VecVal())
+    elif c.margs:
+        # the value's own Default (e.g. the crate's derived Default for PurlParts)
+        a.set(I.trait_call('Default', 'default', c.margs[0], []))
     else:
         raise Unsupported('mem::take of %r' % (x,))
     return x
@@ -1492,6 +1495,17 @@ def m_slice_iter(I, c, r):
     return VecRefIt(vec_of(r))
 
 
+@model('slice::split_at', 'slice::split_at_mut')
+def m_slice_split_at(I, c, r, n):
+    v = vec_of(r)
+    if not isinstance(n, int):
+        raise Unsupported('symbolic split_at')
+    if n > len(v.items):
+        raise Panic('mid > len')
+    # two views: elements are shared objects, so reads and in-place edits of elements are seen through both
+    return Tup(VecVal(v.items[:n]), VecVal(v.items[n:]))
+
+
 @model('Vec::retain', 'Vec::retain_mut')
 def m_vec_retain(I, c, r, f):
     v = vec_of(r)
@@ -1772,6 +1786,17 @@ class Formatter(Opaque):
 def m_fmt_flag(I, c, f):
     f = deref_all(f)
     return {'alternate': f.alt, 'sign_plus': f.sign_plus, 'sign_minus': False, 'sign_aware_zero_pad': f.zero_pad}[c.method]
+
+
+@model('Formatter::align')
+def m_fmt_align(I, c, f):
+    a = getattr(deref_all(f), 'align', None)
+    return NONE_() if a is None else Some(Adt('Alignment', a, []))
+
+
+@model('Formatter::fill')
+def m_fmt_fill(I, c, f):
+    return getattr(deref_all(f), 'fill', 0x20)
 
 
 @model('Formatter::width', 'Formatter::precision')
